@@ -128,6 +128,16 @@ func reimportHistory(ws map[string]*tracew.Writer, seed int64, run, depth int) e
 				removed = append(removed, id)
 				rr.Removes = append(rr.Removes, &goattypes.RemoveVoterRequest{Voter: s.member(id).EthAddr()})
 			}
+			if r.Intn(5) == 0 { // a batch that would empty the group: every voter (in some order) and the proposer somewhere among them
+				if vc, err := s.voteCtx(); err == nil && len(vc.Voters) > 0 {
+					ids := append([]int{vc.Proposer}, vc.Voters...)
+					r.Shuffle(len(ids), func(i, j int) { ids[i], ids[j] = ids[j], ids[i] })
+					for _, id := range ids {
+						removed = append(removed, id)
+						rr.Removes = append(rr.Removes, &goattypes.RemoveVoterRequest{Voter: s.member(id).EthAddr()})
+					}
+				}
+			}
 			lp.Relayer = rr
 		}
 		if r.Intn(3) == 0 && len(lp.Txs) < 10 {
